@@ -285,6 +285,11 @@ func (p *Parser) parseVP8XChunks(buf []byte) error {
 		buf = buf[chunkTotal:]
 	}
 
+	if !isAnim && len(p.frames) == 0 {
+		// A still extended file must contain its image chunk; running out of
+		// chunks before it means the data was cut short.
+		return ErrTruncated
+	}
 	return nil
 }
 
